@@ -42,7 +42,7 @@ def gen(rng, tier, idx):
     b = mapfam.draw_side_cfg(rng, a, wp['n_query'], same_chunks=bitwise)
     if not bitwise:
         b['rng_seed'] = rng.randrange(2 ** 31)
-    return {'wp': wp, 'rel': rel, 'a': a, 'b': b, 'vseed': rng.randrange(2 ** 31),
+    return {'wp': wp, 'rel': rel, 'tier': tier, 'a': a, 'b': b, 'vseed': rng.randrange(2 ** 31),
             'sched_a': common.draw_sched(rng), 'sched_b': common.draw_sched(rng),
             'kcfg': common.draw_kernel_cfg(rng)}
 
@@ -81,9 +81,23 @@ def run(scn, sb):
         Xa = model.log2cpm(W.q_X)
         a['normalization'] = b['normalization'] = 'log2CPM'
         keep = [i for i, g in enumerate(ga) if g in marker_genes or r.random() < 0.5]
-        extra = r.uniform(0, 9, size=(Xa.shape[0], 3))
+        # a handful of extra genes, or enough of them to push the markers past column 2**8 (2**16 in the thorough
+        # tier); appended, prepended or interleaved with the kept columns
+        u = r.random()
+        n_extra = 3 if u < 0.55 else (int(r.integers(20, 60)) if u < 0.7 else int(r.integers(257, 400)))
+        if scn.get('tier') == 'thorough' and u > 0.985:
+            n_extra = 65536 + int(r.integers(1, 50))
+        extra = r.uniform(0, 9, size=(Xa.shape[0], n_extra))
         Xb = np.hstack([Xa[:, keep], extra])
-        gb = [ga[i] for i in keep] + ['newgene_%d' % i for i in range(3)]
+        gb = [ga[i] for i in keep] + ['newgene_%d' % i for i in range(n_extra)]
+        place = r.random()
+        if place < 0.35:      # extras first
+            order = list(range(len(keep), len(gb))) + list(range(len(keep)))
+        elif place < 0.7:     # interleaved
+            order = [int(x) for x in r.permutation(len(gb))]
+        else:
+            order = list(range(len(gb)))
+        Xb, gb = Xb[:, order], [gb[i] for i in order]
         exact = True
     elif rel == 'negative':
         Xb = W.q_X.copy()
